@@ -11,7 +11,6 @@ use std::{
     path::PathBuf,
     sync::{
         atomic::{AtomicBool, AtomicU64, Ordering},
-        Mutex,
     },
     time::{Duration, Instant},
 };
@@ -962,7 +961,18 @@ impl Ctx {
         if !self.no_evidence {
             let dir = self.root.join("evidence");
             let _ = std::fs::create_dir_all(&dir);
-            let path = dir.join(format!("{}.json", self.property));
+            let args: Vec<String> = std::env::args().collect();
+            let name = arg_value(&args, "--evidence-name").unwrap_or_else(|| self.property.clone());
+            let mut ev = ev;
+            if let Ok(p) = std::env::var("VERIF_EMBED_EVIDENCE") {
+                // evidence of a companion engine run for the same property (e.g. thread mode)
+                if let Ok(t) = std::fs::read_to_string(&p) {
+                    if let Ok(v) = serde_json::from_str::<Value>(&t) {
+                        ev["coverage"]["companion_run"] = v;
+                    }
+                }
+            }
+            let path = dir.join(format!("{}.json", name));
             if let Err(e) = std::fs::write(&path, serde_json::to_string_pretty(&ev).unwrap() + "\n") {
                 self.harness_error(format!("cannot write evidence: {}", e));
             }
